@@ -5,4 +5,37 @@ package main
 func init() { families = append(families, factsCompact) }
 
 func factsCompact() {
+	factsC30()
+}
+
+// C30: the conditions of the planner the model transliterates (pkg/compact/planner.go).
+func factsC30() {
+	const src = "pkg/compact/planner.go"
+	f := parse(src)
+	plan := fn(f, "tsdbBasedPlanner", "plan")
+	emitStr("plannerTombstoneCond", src+" tsdbBasedPlanner.plan: the tombstone-ratio test",
+		firstIfCond(body(plan), "NumTombstones"))
+	emitStr("plannerTombstoneMinRange", src+" tsdbBasedPlanner.plan: the minimal length of a block considered for a tombstone compaction",
+		firstIfCond(body(plan), "meta.MaxTime-meta.MinTime"))
+	emitList("plannerPlanCalls", src+" tsdbBasedPlanner.plan: order of the selection calls",
+		callSeq(body(plan), "selectOverlappingMetas", "selectMetas"))
+	sel := fn(f, "", "selectMetas")
+	emitStr("plannerSelectFreshCond", src+" selectMetas: a part is skipped when it does not span the range and reaches beyond the newest considered block",
+		firstIfCond(body(sel), "highTime"))
+	emitStr("plannerSelectFailedCond", src+" selectMetas: parts with a failed compaction are skipped",
+		firstIfCond(body(sel), "Failed"))
+	ov := fn(f, "", "selectOverlappingMetas")
+	emitStr("plannerOverlapCond", src+" selectOverlappingMetas: the overlap test",
+		firstIfCond(body(ov), "globalMaxt"))
+	sp := fn(f, "", "splitByRange")
+	emitStr("plannerSplitFitCond", src+" splitByRange: a block that does not fit its aligned range is skipped",
+		firstIfCond(body(sp), "t0+tr"))
+	emitStr("plannerSplitSignCond", src+" splitByRange: the branch on the sign of MinTime",
+		firstIfCond(body(sp), "m.MinTime >="))
+	sz := fn(f, "largeTotalIndexSizeFilter", "plan")
+	emitStr("plannerSizeLimitCond", src+" largeTotalIndexSizeFilter.plan: the size test (15% headroom)",
+		firstIfCond(body(sz), "totalIndexBytes"))
+	vt := fn(f, "verticalCompactionDownsampleFilter", "Plan")
+	emitStr("plannerVerticalResCond", src+" verticalCompactionDownsampleFilter.Plan: which blocks of an overlapping plan are marked",
+		firstIfCond(body(vt), "Resolution"))
 }
